@@ -135,6 +135,15 @@ def harness(cfg, nprior):
                         l, r = nd._left_child, nd._right_child
                         E.prove('tree-partition', (l._start == nd._start) & (l._end == nd._midway) &
                                 (r._start == nd._midway) & (r._end == nd._end))
+                # float re-execution of this path on the unpatched module (times as float64): what real arithmetic cannot
+                # see (e.g. a comparison decided by rounding error in tb - ta) shows up here
+                if grid is not None or E.stats['paths'] % 4 == 0:
+                    with symx.no_branch(), bshim.pristine():
+                        inp = {k: float(v) for k, v in E.assignment_full().items()}
+                        badf = numeric_check(c, nprior, inp)
+                    E.float_checks = getattr(E, 'float_checks', 0) + 1
+                    if badf:
+                        E.fail('float-run:' + badf[0].split(' ')[0], 'float', f'on float64 times {inp}: {badf}')
             except (Inconclusive, Unsupported):
                 raise
             except Exception as e:
@@ -257,11 +266,20 @@ def twin():
 
 # ---------------------------------------------------------------- replay on the pristine library
 def replay(data):
-    import torch
-    import torchsde
     r = data['replay']
     cfg = dict(B.DEFAULT); cfg.update(r['cfg'])
     inp = {k: float(Fraction(v)) for k, v in r['inputs'].items()}
+    bad = numeric_check(cfg, r['nprior'], inp)
+    print('replay C03:', bad or 'all relations hold numerically')
+    if r['what'] in ('A-chen-fold', 'loc-first-start', 'loc-last-end', 'loc-abut', 'tree-partition', 'reverse==base') and not bad:
+        bad = _replay_internal(r, cfg, inp)
+    return bool(bad)
+
+
+def numeric_check(cfg, nprior, inp):
+    """the C03 relations on the real library with ordinary float times / tensors; returns the list of violated relations"""
+    import torch
+    import torchsde
     size = tuple(cfg['size'])
     t0 = inp.get('T0', float(Fraction(cfg['t0']))); t1 = inp.get('T1', float(Fraction(cfg['t1'])))
     torch.manual_seed(0)
@@ -292,7 +310,7 @@ def replay(data):
             if grid is None:
                 return inp[name]
             return inp['k' + name] / 10 ** grid
-        for k in range(r['nprior']):
+        for k in range(nprior):
             if grid is None:
                 a, b = inp[f'p{k}a'], inp[f'p{k}b']
             else:
@@ -322,10 +340,7 @@ def replay(data):
             bad.append('zero-length')
     except Exception as e:
         bad.append(f'crash {type(e).__name__}: {e}')
-    print('replay C03:', bad or 'all relations hold numerically')
-    if r['what'] in ('A-chen-fold', 'loc-first-start', 'loc-last-end', 'loc-abut', 'tree-partition', 'reverse==base') and not bad:
-        bad = _replay_internal(r, cfg, inp)
-    return bool(bad)
+    return bad
 
 
 def _replay_internal(r, cfg, inp):
